@@ -52,6 +52,47 @@ type sys struct {
 	cutFor   time.Duration
 	cutSet   []int
 	dropped  map[[2]int]bool // [to, from]: a Commit or Abort of `from` never reached `to` (transport reported an error)
+	preSent    map[[2]int]int64 // [to, from]: latest SenderTime of a PreCommit `from` has handed to its handle for `to`
+	abortAcked map[[2]int]int64 // [to, from]: latest SenderTime of an Abort of `from` that `to` has processed (Send returned without error)
+}
+
+// obsHandle observes what a proposer's handle to one replica reports, whatever the
+// transport underneath: an Abort whose Send returned without error has been processed by
+// that replica.
+type obsHandle struct {
+	s        *sys
+	from, to int
+	inner    resources.ReplicaHandle
+}
+
+func (h *obsHandle) Close() error { return h.inner.Close() }
+
+func (h *obsHandle) Send(req resources.TwoPCRequest, reply *resources.TwoPCResponse) chan error {
+	if req.RequestType == resources.PreCommit {
+		k := [2]int{h.to, h.from}
+		if req.SenderTime > h.s.preSent[k] {
+			h.s.preSent[k] = req.SenderTime
+		}
+	}
+	ch := h.inner.Send(req, reply)
+	// all three handles deliver synchronously: the result is already in the channel
+	var err error
+	select {
+	case err = <-ch:
+	default:
+		return ch
+	}
+	h.s.w.Event("2pc %d->%d %v v%d t=%d: err=%v accept=%v replyVersion=%d", h.from, h.to, req.RequestType, req.Version, req.SenderTime, err, reply.Accept, reply.Version)
+	if err == nil && req.RequestType == resources.Abort {
+		k := [2]int{h.to, h.from}
+		if req.SenderTime > h.s.abortAcked[k] {
+			h.s.abortAcked[k] = req.SenderTime
+		}
+		h.s.w.Probe("abort_processed_by_replica")
+	}
+	out := make(chan error, 1)
+	out <- err
+	return out
 }
 
 // lostTo says whether the transport dropped a Commit/Abort of proposer `from` (rendered
@@ -145,6 +186,8 @@ func (s *sys) build() {
 	s.byVer = map[int]string{}
 	s.down = make([]bool, s.n)
 	s.dropped = map[[2]int]bool{}
+	s.abortAcked = map[[2]int]int64{}
+	s.preSent = map[[2]int]int64{}
 	if s.n >= 3 && w.Choose(sim.KFault, 3) == 1 {
 		// cut off a minority for a while: they miss commits and come back lagging
 		m := 1 + w.Choose(sim.KFault, (s.n-1)/2)
@@ -179,12 +222,12 @@ func (s *sys) build() {
 			}
 			switch s.transport {
 			case trLocal:
-				hs = append(hs, resources.VerifLocalReplicaHandle(s.res[j]))
+				hs = append(hs, &obsHandle{s: s, from: i, to: j, inner: resources.VerifLocalReplicaHandle(s.res[j])})
 			case trSim:
-				hs = append(hs, &simHandle{s: s, from: i, to: j})
+				hs = append(hs, &obsHandle{s: s, from: i, to: j, inner: &simHandle{s: s, from: i, to: j}})
 			default:
 				h := resources.MakeRPCReplicaHandle(addr(j), tla.MakeString(fmt.Sprintf("node%d", j)))
-				hs = append(hs, &h)
+				hs = append(hs, &obsHandle{s: s, from: i, to: j, inner: &h})
 			}
 		}
 		s.res[i].(*resources.TwoPCArchetypeResource).SetReplicas(hs)
@@ -304,6 +347,17 @@ func (s *sys) invariant() {
 			}
 		} else {
 			s.byVer[ver] = c
+		}
+		// a proposal whose Abort this replica has processed is released: the replica does not
+		// (still, or again through a straggling copy of the PreCommit) hold a pre-commit of a
+		// proposer whose latest Abort it has processed and who has proposed nothing since
+		if _, _, acc, from, av, _ := resources.VerifTwoPCSnapshot(s.res[i]); acc {
+			for j := 0; j < s.n; j++ {
+				k := [2]int{i, j}
+				if fmt.Sprintf("%q", fmt.Sprintf("node%d", j)) == from && s.abortAcked[k] > s.preSent[k] {
+					w.Fail("aborted_proposal_not_released", "replica %d holds an accepted pre-commit of proposer %d (version %d) although it has processed that proposer's Abort stamped %d and the proposer's latest PreCommit to it is older (stamped %d) | %s", i, j, av, s.abortAcked[k], s.preSent[k], s.desc)
+				}
+			}
 		}
 	}
 }
